@@ -15,6 +15,7 @@ import (
 )
 
 type Clause struct {
+	Props   []string // property ids named in the clause's trailing comment: the clause belongs to these only
 	Text    string
 	Expr    Expr
 	File    string
@@ -28,6 +29,10 @@ type FuncContract struct {
 	Params    []string // spec blocks: parameter names
 	Requires  []*Clause
 	Assumes   []*Clause // preconditions that call sites do not check (explicit assumptions)
+	Updates   []*GhostUpdate
+	Alias     []string // positional parameter names (closure specs)
+	InPlace   []string // slice parameters whose elements the function rewrites (visible to the caller)
+	SpecOf    string
 	Ensures   []*Clause
 	LoopInv   map[int][]*Clause
 	LoopDec   map[int]*Clause
@@ -42,6 +47,13 @@ type FuncContract struct {
 	Notes     []string
 	Inline    bool // force inlining at call sites instead of modular use
 	Terminate bool
+}
+
+type GhostUpdate struct {
+	Ghost string
+	Expr  Expr
+	Text  string
+	Line  int
 }
 
 type GhostDecl struct {
@@ -87,11 +99,14 @@ type LemmaDecl struct {
 }
 
 type GlobalAssume struct {
-	Text string
-	Expr Expr
-	File string
-	Line int
-	pkg  *types.Package
+	Props []string
+	Ghost string
+	Scope []string // function-name substrings this rule applies to (empty: everywhere)
+	Text  string
+	Expr  Expr
+	File  string
+	Line  int
+	pkg   *types.Package
 }
 
 type ContractSet struct {
@@ -102,6 +117,9 @@ type ContractSet struct {
 	FoldOrd  []string
 	Lemmas   []*LemmaDecl
 	Assumes  []*GlobalAssume
+	ChanInvs []*GlobalAssume
+	OnRecv   []*GlobalAssume
+	OnRecvUp []*GlobalAssume // ghost updates performed at a receive: Ghost = Expr
 	Specs    map[string]*FuncContract
 	Defs     map[string]*DefDecl
 	Errors   []string
@@ -124,6 +142,8 @@ func NewContractSet() *ContractSet {
 	return &ContractSet{Funcs: map[string]*FuncContract{}, Ghosts: map[string]*GhostDecl{}, Folds: map[string]*FoldDecl{},
 		Specs: map[string]*FuncContract{}, Defs: map[string]*DefDecl{}, pkgOf: map[string]*types.Package{}, pkgUFuns: map[string]*UFun{}}
 }
+
+var rePropID = regexp.MustCompile(`\bC[0-9]{2}\b`)
 
 var reLoop = regexp.MustCompile(`^loop\s+(\d+)\s+(invariant|decreases)\s+(.*)$`)
 
@@ -194,14 +214,22 @@ func (cs *ContractSet) parseLines(fname string, lines []struct {
 }, pkg *types.Package) {
 	var cur *FuncContract
 	var curLemma *LemmaDecl
+	var lastProps []string
+	_ = lastProps
 	mkClause := func(text string, line int, ord int) *Clause {
+		full := text
 		text = stripComment(text)
+		var props []string
+		if len(full) > len(text) {
+			props = rePropID.FindAllString(full[len(text):], -1)
+		}
+		defer func() { lastProps = props }()
 		e, err := ParseExpr(text)
 		if err != nil {
 			cs.errf(fname, line, "cannot parse %q: %v", text, err)
 			return nil
 		}
-		return &Clause{Text: text, Expr: e, File: fname, Line: line, Ordinal: ord}
+		return &Clause{Text: text, Expr: e, File: fname, Line: line, Ordinal: ord, Props: props}
 	}
 	// join continuation lines (starting with "...")
 	var joined []struct {
@@ -331,6 +359,56 @@ func (cs *ContractSet) parseLines(fname string, lines []struct {
 			} else {
 				cs.errf(fname, l.line, "requires outside a block")
 			}
+		case "chaninv", "onrecv":
+			txt := rest
+			var scope []string
+			if w2, r2 := splitWord(txt); w2 == "in" {
+				if i := strings.Index(r2, ":"); i >= 0 {
+					for _, sc := range strings.Split(r2[:i], ",") {
+						scope = append(scope, strings.TrimSpace(sc))
+					}
+					txt = strings.TrimSpace(r2[i+1:])
+				}
+			}
+			upGhost := ""
+			if word == "onrecv" {
+				w2, r2 := splitWord(txt)
+				if w2 == "requires" {
+					txt = r2
+				} else if w2 == "update" {
+					if i := strings.Index(r2, "="); i > 0 {
+						upGhost = strings.TrimSpace(r2[:i])
+						txt = strings.TrimSpace(r2[i+1:])
+					}
+				}
+			}
+			c := mkClause(txt, l.line, 0)
+			if c != nil {
+				ga := &GlobalAssume{Scope: scope, Text: c.Text, Expr: c.Expr, File: fname, Line: l.line, pkg: pkg, Props: c.Props}
+				if upGhost != "" {
+					ga.Ghost = upGhost
+					cs.OnRecvUp = append(cs.OnRecvUp, ga)
+				} else if word == "chaninv" {
+					cs.ChanInvs = append(cs.ChanInvs, ga)
+				} else {
+					cs.OnRecv = append(cs.OnRecv, ga)
+				}
+			}
+			cur, curLemma = nil, nil
+		case "update":
+			if cur == nil {
+				cs.errf(fname, l.line, "update outside a func block")
+				continue
+			}
+			i := strings.Index(rest, "=")
+			if i < 0 {
+				cs.errf(fname, l.line, "update without =")
+				continue
+			}
+			g := strings.TrimSpace(rest[:i])
+			if c := mkClause(rest[i+1:], l.line, len(cur.Updates)+1); c != nil {
+				cur.Updates = append(cur.Updates, &GhostUpdate{Ghost: g, Expr: c.Expr, Text: c.Text, Line: l.line})
+			}
 		case "assumes":
 			if cur == nil {
 				cs.errf(fname, l.line, "assumes outside a func block")
@@ -380,6 +458,14 @@ func (cs *ContractSet) parseLines(fname string, lines []struct {
 			for _, m := range strings.Split(stripComment(rest), ",") {
 				if m = strings.TrimSpace(m); m != "" && m != "nothing" {
 					cur.Modifies = append(cur.Modifies, m)
+				}
+			}
+		case "inplace":
+			if cur != nil {
+				for _, n := range strings.Split(stripComment(rest), ",") {
+					if n = strings.TrimSpace(n); n != "" {
+						cur.InPlace = append(cur.InPlace, n)
+					}
 				}
 			}
 		case "nopanic":
